@@ -188,3 +188,119 @@ def keys_read_by_update(m):
                     for e in arms:
                         required.setdefault(e, set()).add(key)
     return read, required
+
+
+# ---- what a composite waits for before it completes itself --------------------------------------------------------------
+def _upvar_outer(m, pa, g, r, depth=0):
+    """resolve an upvar root of closure g to (outer fn, root in the outer fn); None when not resolvable"""
+    if r[0] != "upvar" or depth > 3:
+        return (g, r)
+    site = m.closure_sites().get(g.q)
+    if not site:
+        return None
+    parent, cb, csi, ops = site
+    for name, (l, p) in g.upvars:
+        if name == r[1]:
+            idx = [e[1] for e in p if isinstance(e, list) and e[0] == "f"]
+            if idx and idx[0] < len(ops) and ops[idx[0]][0] != "k":
+                pr = pa.root(parent, ops[idx[0]])
+                if r[2]:
+                    pr = pr[:-1] + (tuple(pr[-1]) + tuple(r[2]),)
+                return _upvar_outer(m, pa, parent, pr, depth + 1)
+    return None
+
+
+def _parent_is(m, pa, g, c, f, recv):
+    """call c in closure g is `t.parent().is_some_and(|p| p.id == <the task recv of f>.id)` with t = the closure's element"""
+    if not c.q.endswith("Option::<T>::is_some_and") or len(c.args) < 2:
+        return False
+    a = pa.root(g, c.args[0])
+    if not (a[0] == "call" and a[1].endswith("Task::parent") and not a[3]):
+        return False
+    el = pa.root(g, Call(g, a[2]).args[0])
+    if el[:2] != ("param", 2):
+        return False
+    k = pa.root(g, c.args[1])
+    if k[0] != "closure" or k[1] not in m.fns:
+        return False
+    h = m.fns[k[1]]
+    if any(b["t"][0] == "switch" for b in h.blocks):
+        return False
+    eqs = [x for x in h.calls() if x.q.endswith("PartialEq>::eq") or x.q.endswith("PartialEq<&B>>::eq")]
+    if len(eqs) != 1 or not (eqs[0].dest[0] == 0 and not eqs[0].dest[1]):
+        return False
+    sides = [pa.root(h, x) for x in eqs[0].args]
+    p_side = [s for s in sides if s[0] == "param" and s[1] == 2 and tuple(s[3]) == ("id",)]
+    u_side = [s for s in sides if s[0] == "upvar" and tuple(s[2]) == ("id",)]
+    if len(p_side) != 1 or len(u_side) != 1:
+        return False
+    out = _upvar_outer(m, pa, h, ("upvar", u_side[0][1], ()))
+    if out is None:
+        return False
+    of, orr = out
+    return of is f and orr == recv
+
+
+def wait_set(m, pa, f, c, recv):
+    """the quantifier under which `f` writes Completed on its own task at call c (receiver root recv), normalised:
+    None when no quantifier over the tasks beneath it holds at the write, else a dict
+      form      'forall' | 'none-open'
+      domain    'children' (Task::children of the task itself) | 'process' (every task of the process)
+      done(total) -> set of values: may the write happen although a task with the atoms `total` exists?
+                   atoms: ended (TaskState::is_completed / is_success of its state), hook (Task::is_event_processed),
+                   beneath (its parent is the task itself; always True for domain 'children')
+      how       printable description"""
+    from vlib import quant
+    for qn in quant.quantifiers(m, f):
+        if qn.closure is None:
+            continue
+        h = qn.holds_at(f, c.b)
+        if not ((qn.kind == "forall" and h is True) or (qn.kind == "exists" and h is False) or (qn.kind == "none" and h is True)):
+            continue
+        r = pa.root(f, qn.source.args[0]) if qn.source.args else ("?",)
+        for _ in range(6):
+            if r[0] == "call" and re.search(r"::(iter|into_iter|deref|as_slice|as_ref|borrow)$", r[1]) and not r[3]:
+                cc = Call(f, r[2])
+                r = pa.root(f, cc.args[0]) if cc.args else ("?",)
+                continue
+            break
+        domain = None
+        if r[0] == "call" and r[1].endswith("Task::children") and pa.root(f, Call(f, r[2]).args[0]) == recv:
+            domain = "children"
+        elif r[0] == "call" and r[1].endswith("Process::tasks"):
+            domain = "process"
+        if domain is None:
+            continue
+        g = qn.closure
+        preds = set()
+
+        def classify(x, g=g):
+            mt = T.STATE_PRED.match(x.q)
+            if mt and x.args:
+                sr = pa.root(g, x.args[0])
+                if sr[0] == "call" and sr[1] == T.Q_STATE and pa.root(g, Call(g, sr[2]).args[0])[:2] == ("param", 2):
+                    if mt.group(1) in ("is_completed", "is_success"):
+                        preds.add(mt.group(1))
+                        return ("ended", False)
+                return None
+            if x.q.endswith("Task::is_event_processed") and x.args and pa.root(g, x.args[0])[:2] == ("param", 2):
+                return ("hook", False)
+            if _parent_is(m, pa, g, x, f, recv):
+                return ("beneath", False)
+            return None
+        table = quant.closure_truth(m, g, classify)
+        if table is None:
+            continue
+        positive = qn.kind == "forall"      # the closure says "this one is fine"; otherwise it says "this one is open"
+
+        def done(total, table=table, positive=positive, domain=domain):
+            t = dict(total)
+            if domain == "children":
+                t["beneath"] = True
+            vals = quant.table_value(table, t)
+            # may the write happen with such a task around?  forall: closure may be True; none-open: closure may be False
+            return {(v if positive else (not v)) if v in (True, False) else "?" for v in vals}
+        return {"form": "forall" if positive else "none-open", "domain": domain, "done": done,
+                "how": "%s over %s with predicate on %s" % ("`all`" if positive else "`any`/none", "children()" if domain == "children" else "the tasks of the process",
+                                                          "/".join(sorted(preds)) or "?"), "quant": qn}
+    return None
